@@ -10,7 +10,7 @@ CLAIMED = {
         "text": "Structural necessary conditions of the BGZF identity decided on every path of the MIR: constants and the "
                 "block budget vs SAMv1 §4.1 (rustc const-eval), staging-buffer ownership and min() bound, checked BSIZE/ISIZE "
                 "conversions, finalisation must-pass-through (flush, write_frame, EOF marker in finish/try_finish/Drop), and "
-                "reader integrity guards (CRC32, ISIZE, header, frame size). Not the payload round trip itself.",
+                "reader integrity guards (CRC32, ISIZE, header, frame size), and the direct-read fast path leaving the block consumed (last-writer rule). Not the payload round trip itself.",
         "note": "trusts zlib-rs deflate/inflate and std write_all/read_exact; decides shape, not values",
         "technique": "static analysis: MIR must-pass-through + guard dominance + who-may-write + const relations (rustc_private driver)",
         "design_ref": "§5 C01",
@@ -22,9 +22,10 @@ CLAIMED.update({
         "text": "Transfer discipline decided for every raw read / fill_buf call site of the workspace (sync and async): each site is "
                 "classified from the MIR as delegation, loop (with Interrupted retry), scan-in-loop or peek-1; a site that takes a "
                 "short read for the whole transfer or needs k>1 bytes of one fill_buf window is a violation. Also the EOF-vs-partial "
-                "guard of the read-N-or-EOF helpers and LF/CR stripping of the line readers. Necessary conditions only: content "
+                "guard of the read-N-or-EOF helpers (incl. cursor accumulation), LF/CR stripping of the line readers, CR of a CRLF split across two windows, copy-before-consume "
+                "in every copying scanner. Necessary conditions only: content "
                 "equality under every chunking is not decided.",
-        "note": "trusts std/tokio read_exact/read_until/BufReader contracts; known finding F6 (noodles-util autodetection) listed by exact key",
+        "note": "trusts std/tokio read_exact/read_until/BufReader contracts; known finding F6 (noodles-util autodetection) listed by exact key; genuine defect F16 (async FASTA CRLF across windows) found by R6 and repaired (fix: 981b297)",
         "technique": "static analysis: call-site classification by natural loops, enclosing trait method and forward data flow of the returned slice (MIR)",
         "design_ref": "§5 C12",
     },
@@ -32,7 +33,8 @@ CLAIMED.update({
         "text": "Error discipline decided workspace-wide on MIR: every discarded Result (let _ / .ok() / drop / unused) and every io::Result "
                 "match whose Err arm reaches a success exit must be in a confirmed table; no raw write outside delegation or a zero-checked "
                 "advance loop; finish/try_finish/shutdown/Drop of every writer pass the flush of staged data and the format terminator; "
-                "MT writer joins and propagates. Necessary conditions: an error can only be hidden through one of these shapes.",
+                "MT writer joins and propagates; no raw sink flush/write inside a staging write() (an escaping Interrupted makes write_all duplicate data). "
+                "Necessary conditions: an error can only be hidden through one of these shapes.",
         "note": "trusts write_all semantics; known finding F10 (bam alignment Write::finish no-op) listed by exact key",
         "technique": "static analysis: def-use discard detection, Err-edge reachability, must-pass-through with wrapper summaries (MIR)",
         "design_ref": "§5 C14",
@@ -44,7 +46,8 @@ CLAIMED.update({
         "text": "Structural necessary conditions of tell/seek consistency: typestate 'no stale block after reposition' in all four seek "
                 "implementations (must-pass-through from the inner seek to every success exit), the in-block offset stored only on the "
                 "edge where it was compared with the loaded block's length, one definition of the virtual position with confirmed "
-                "writers of every position field, and the paired-guard constant of the direct-read fast path. The reference-model "
+                "writers of every position field, the paired-guard constant of the direct-read fast path, every emitted frame advancing the writer position by its size, "
+                "and every stamped block moving the reader's running position past it (all four reader variants). The reference-model "
                 "equality over histories and gzi boundary arithmetic are not decided.",
         "note": "trusts inner Seek::seek; two genuine defects found by these rules were repaired (fix: commits 4ec97ac, 96ce989)",
         "technique": "static analysis: must-pass-through typestate, guard dominance, who-may-write/who-may-call tables (MIR)",
@@ -72,7 +75,7 @@ CLAIMED.update({
                 "are discharged automatically, every other unwrap/index/slice/div/shift site is held against a frozen per-function "
                 "baseline that is explicitly not a claim of safety. Decides: no new panic-capable construct in decode-reachable code, "
                 "and the guards that keep lazy views safe. Does not decide loops, stack or allocation, nor the baseline sites themselves.",
-        "note": "baseline sites are undecided (evidence counts them); 25 known-finding keys (F5) by exact key and multiplicity; one CSI panic repaired (fix: 5f315e7)",
+        "note": "baseline sites are undecided (evidence counts them); 23 known-finding keys (F5, F15) by exact key and multiplicity; seven read-side panics repaired (fix: 5f315e7, 393a12a, 205b072, 474c4ae, e6f4867, 3c0880c, 0fe9510)",
         "technique": "static analysis: whole-workspace call graph with class-hierarchy expansion, panic-construct inventory on MIR, constant-folding discharge, ratchet against reviewed tables",
         "design_ref": "§5 C15",
     },
@@ -93,7 +96,7 @@ CLAIMED.update({
         "text": "Guards of indexed FASTA access decided on MIR: offset returned only after start was compared with the sequence length, "
                 "bounded copy min(remaining, window) in the limited sequence reader, indexer's consistency comparisons reach error exits "
                 "and records are emitted only after the last-line test, fill_buf scanners are not window-assuming, FASTQ read_record resets the reused "
-                "record with a field-complete clear(), append-buffer discipline of all FASTA/FASTQ readers. Offset arithmetic is not decided.",
+                "record with a field-complete clear(), append-buffer discipline of all FASTA/FASTQ readers, CR handling of the sequence scanners independent of the fill_buf window. Offset arithmetic is not decided.",
         "note": "one genuine defect found by R1 was repaired (fix: 95ab786); the `%`-operand arithmetic mutant of DESIGN §2 stays invisible",
         "technique": "static analysis: guard dominance, data-flow of min() into extend/consume, must-pass-through (MIR)",
         "design_ref": "§5 C11",
@@ -102,7 +105,7 @@ CLAIMED.update({
         "text": "Escaping clauses decided structurally: per GFF3 column encoded-on-write iff decoded-in-every-read-view (caller sets), evaluated "
                 "attribute/seqid encode sets vs the GFF3 spec and vs reader delimiter constants, GTF escape set of the writer equals the set "
                 "the reader accepts after a backslash (match-pattern tables), values always quoted, owned record built from the lazy accessors, "
-                "line buffers reset before every appended line (incl. the blank-line skip loop).",
+                "line buffers reset before every appended line (incl. the blank-line skip loop), BED field scanner copies before it consumes.",
         "note": "known finding F7 (seqid encoded, never decoded) by exact key; equality over arbitrary UTF-8 not decided",
         "technique": "static analysis: evaluated AsciiSet constants, HIR match-pattern sets, caller sets of encode/decode helpers",
         "design_ref": "§5 C18",
@@ -115,7 +118,7 @@ CLAIMED.update({
                 "same-path sync types (34 groups): semantic token sets of the twin-private call regions (shared-code calls, transfer "
                 "widths/endianness with multiplicity, constants, ErrorKinds, try_from type pairs, casts) must be equal modulo a frozen, "
                 "partly triaged difference table. Decides: no twin was edited alone (dropped validate/intersects/resolve, changed width, "
-                "endianness, magic or conversion). Does not decide equality under every poll schedule, nor order of operations.",
+                "endianness, magic or conversion), plus the stamp/position pairing of the async BGZF reader. Does not decide equality under every poll schedule, nor order of operations.",
         "note": "the sync side is pinned by the unit tests; frozen differences are recorded behaviour, not claimed equivalent; a benign one-sided edit that adds a token is reported (documented precision limit)",
         "technique": "static analysis: Engler-style sibling cross-checking over resolved call regions and MIR token multisets",
         "design_ref": "§5 C16",
@@ -128,7 +131,7 @@ CLAIMED.update({
                 "that the interval domain or a confirmed table does not cover, lengths/counts through try_from, CIGAR-overflow pairing "
                 "(CG tag on encode, resolve on decode, lazy view) by must-pass-through, confirmed writers of the raw record buffer with "
                 "validation on both read paths, dec∘enc = id exhaustively for the kind/type/subtype tables, reg2bin geometry constants, and the reused-destination rule: every success path of "
-                "decode() overwrites or clears each RecordBuf column. Whole-record equality and value boundaries are not decided.",
+                "decode() overwrites or clears each RecordBuf column; the length-prefix read loop advances its cursor and returns Ok only on nothing-or-everything. Whole-record equality and value boundaries are not decided.",
         "note": "interval reasoning is dominance-based; three casts are tabled with reasons",
         "technique": "static analysis: interval domain over MIR for casts, must-pass-through, who-may-write, HIR match-table agreement, evaluated constants",
         "design_ref": "§5 C05",
@@ -141,7 +144,7 @@ CLAIMED.update({
                 "`as i8`/`as i16` in the encoder proven by the interval domain to lie inside [MIN_VALUE, MAX_VALUE] (reserved codes excluded), "
                 "width dispatch compares against exactly those constants, dec∘enc = id for the type-descriptor codes against both decoders, "
                 "explicit panics in the encoder closure vs a triaged table, string-map lookups are error exits, the decoder overwrites every column of "
-                "the reused vcf RecordBuf. Record equality and "
+                "the reused vcf RecordBuf, the per-type copies of the FORMAT value decoders agree on the guards under which a sample is missing. Record equality and "
                 "per-sample padding are not decided.",
         "note": "one genuine defect (encoder todo!() on a missing INFO value) was repaired (fix: d137c9d)",
         "technique": "static analysis: interval domain with dominating guards over MIR, evaluated constants, HIR match-table agreement, panic inventory",
